@@ -99,6 +99,17 @@ struct Hist {
 
     RefBlock* Tip() { return led.Find(node.TipHash()); }
 
+    //! kind of the next adversarial block of a family: the first 2n picks go round-robin through the n kinds (offset by the
+    //! case number) so that every history of a class sees every kind; later picks are random.
+    std::map<std::string, uint64_t> rr;
+    int PickKind(const std::string& family, int n)
+    {
+        uint64_t& k = rr[family];
+        if (k < 2 * (uint64_t)n) return (int)((case_no + k++) % (uint64_t)n);
+        ++k;
+        return (int)rng.below((uint64_t)n);
+    }
+
     // ------------------------------------------------------------------ time
     uint32_t NextTime(const RefBlock* parent)
     {
@@ -693,7 +704,7 @@ struct Hist {
         const int H = tip->height + 1;
         std::set<COutPoint> used;
         std::vector<CTransactionRef> txs = ValidTxs(tip, 3, used);
-        const int kind = (int)rng.below(8);
+        const int kind = PickKind("value", 8);
         switch (kind) {
         case 0: case 1: {
             // coinbase pays subsidy + fees + 1 ; neighbour pays exactly subsidy + fees
@@ -713,7 +724,7 @@ struct Hist {
         case 2: case 3: case 4: {
             // output value range: -1, MAX_MONEY+1, INT64_MAX, two outputs summing over MAX_MONEY; in a tx or in the coinbase
             auto c = PickCoin(tip, used, 5000);
-            const int sub = (int)rng.below(4);
+            const int sub = PickKind("vout", 4);
             std::vector<CTxOut> bad_outs;
             std::string tag, reason;
             if (sub == 0) { bad_outs = {CTxOut(-1, RandSpk())}; tag = "vout-1"; reason = "bad-txns-vout-negative"; }
@@ -775,7 +786,7 @@ struct Hist {
         std::set<COutPoint> used;
         std::vector<CTransactionRef> txs = ValidTxs(tip, 2, used);
         const bool bip34_late = led.Params().h_bip34 > H + 50;
-        int kind = (int)rng.below(bip34_late ? 10 : 8);
+        int kind = PickKind(bip34_late ? "spend10" : "spend8", bip34_late ? 10 : 8);
         // between creating and (mis)spending: sometimes push the coins through the cache layers
         auto maybe_flush = [&] {
             if (rng.chance(1, 3)) {
@@ -944,7 +955,7 @@ struct Hist {
         const bool csv = led.CsvActiveFor(H);
         std::set<COutPoint> used;
         std::vector<CTransactionRef> txs = ValidTxs(tip, 2, used);
-        const int kind = (int)rng.below(10);
+        const int kind = PickKind("timelock", 10);
         auto pair = [&](CTransactionRef bad_tx, const std::string& bad_tag, const std::string& reason, const std::string& ev_rej, CTransactionRef ok_tx, const std::string& ok_tag, const std::string& ev_acc, std::optional<uint32_t> time = {}) {
             if (bad_tx) {
                 std::vector<CTransactionRef> t = txs;
@@ -998,7 +1009,7 @@ struct Hist {
             const int age = H - c->height;
             if (age < 1 || age + 1 > 0xffff) return;
             std::vector<CTxOut> outs{CTxOut(c->out.nValue - 500, RandSpk())};
-            const int flavour = (int)rng.below(5);
+            const int flavour = PickKind("bip68h", 5);
             if (flavour == 0) {
                 // version 1 is exempt ; the disable flag switches the rule off
                 pair(nullptr, "", "", "", Tx({*c}, outs, 0, {(uint32_t)(age + 1 + rng.below(1000))}, 1), "bip68-version1-exempt", "bip68_exempt_acc");
@@ -1034,7 +1045,7 @@ struct Hist {
         default: {
             // coinbase maturity: 100 confirmations exactly
             static const int depths[] = {98, 99, 99, 100, 100, 101};
-            const int d = depths[rng.below(6)];
+            const int d = depths[PickKind("maturity", 6)];
             std::vector<Spendable> av = Coins(tip, used, /*allow_immature=*/true);
             std::vector<Spendable> cand;
             for (auto& s : av) {
@@ -1084,7 +1095,7 @@ struct Hist {
         if (!fund) return;
         // placements: 0 outputs (legacy x4), 1 scriptSig (legacy x4), 2 P2SH redeem script (accurate x4, counted when connecting),
         //             3 P2WSH witness script (accurate x1), 4 P2SH-wrapped P2WSH (accurate x1)
-        const int placement = (int)rng.below(5);
+        const int placement = PickKind("sigops", 5);
         size_t redeem_acc = 0, wit_acc = 0, sig_legacy = 0;
         const CScript redeem = DeadSigops(rng.below(8), 60 + rng.below(100), rng.below(20), true, &redeem_acc, nullptr);
         const CScript wscript = DeadSigops(rng.below(8), 60 + rng.below(100), rng.below(20), true, &wit_acc, nullptr);
@@ -1264,7 +1275,7 @@ struct Hist {
             }
             throw GenError("could not fit a block to the requested weight/size");
         };
-        const int kind = (int)rng.below(3);
+        const int kind = PickKind("weight", 3);
         if (kind == 0) {
             // weight exactly one over, by a witness byte (step 1)
             RefBlock* over = Register(fit(0, 4000001, -1), "weight-4000001", "bad-blk-weight");
@@ -1293,7 +1304,7 @@ struct Hist {
         const int H = tip->height + 1;
         std::set<COutPoint> used;
         std::vector<CTransactionRef> txs = ValidTxs(tip, 2, used);
-        const int kind = (int)rng.below(12);
+        const int kind = PickKind("limits", 12);
         switch (kind) {
         case 0: {
             // no coinbase
